@@ -24,8 +24,27 @@ type xTok struct {
 
 var c20Meta = []string{"*", "_", "`", "|", "#", ">", "[x]", "~~", "1.", "a*b*c", "_u_", "<t>", "\\", "- "}
 
-func c20Doc(r *rng.R, allowMeta bool, boundaries map[string]int) (*document.Document, []xTok, []string) {
+// c20Boundary draws the kind of boundary between two runs; 10 = the runs touch (one word whose formatting changes in the middle),
+// which is generated only with a letter or digit on both sides: emphasis that starts or ends at punctuation inside a word is
+// not expressible in Markdown.
+func c20Boundary(r *rng.R, prev, next string, keep int, seen *int) int {
+	bk := r.Intn(12)
+	if bk >= 10 {
+		alnum := func(b byte) bool { return b >= '0' && b <= '9' || b >= 'a' && b <= 'z' || b >= 'A' && b <= 'Z' }
+		if prev != "" && next != "" && alnum(prev[len(prev)-1]) && alnum(next[0]) {
+			*seen++
+			if keep < 0 || keep == *seen { // keep: -1 all touching boundaries, 0 none, k only the k-th (diagnosis variants)
+				return 10
+			}
+		}
+		return 0
+	}
+	return bk
+}
+
+func c20Doc(r *rng.R, allowMeta bool, keepTight int, boundaries map[string]int, tightClasses *[]string) (*document.Document, []xTok, []string) {
 	d := document.New()
+	tightSeen := 0
 	var toks []xTok
 	var blocks []string
 	n := 0
@@ -61,6 +80,11 @@ func c20Doc(r *rng.R, allowMeta bool, boundaries map[string]int) (*document.Docu
 			case 5:
 				t.bold, t.strike = true, true
 			}
+			if r.Chance(1, 4) {
+				// any of the sixteen combinations
+				bits := r.Intn(16)
+				t.bold, t.italic, t.strike, t.code = bits&1 != 0, bits&2 != 0, bits&4 != 0, bits&8 != 0
+			}
 			if t.bold || t.italic || t.strike || t.code {
 				f = &document.TextFormat{Bold: t.bold, Italic: t.italic, Strike: t.strike}
 				if t.code {
@@ -88,12 +112,13 @@ func c20Doc(r *rng.R, allowMeta bool, boundaries map[string]int) (*document.Docu
 					// run boundaries: the blank between two words may sit at the start of the next run, at the end of the previous one, at
 					// both, or in a run of its own; an empty run may sit in between (what a picture or a field leaves in the text)
 					last := &p.Runs[len(p.Runs)-1]
-					switch bk := r.Intn(10); { // TODO tight (Intn(11)) once the exporter handles runs that touch
+					switch bk := c20Boundary(r, last.Text.Content, txt, keepTight, &tightSeen); {
 					case bk == 10:
 						// no blank at all: two differently formatted runs inside one word
 						boundaries["tight"]++
 						t.tight = true
 						toks[len(toks)-1].tight = true
+						*tightClasses = append(*tightClasses, fmtLetters(toks[len(toks)-1])+"|"+fmtLetters(t))
 					case bk < 5:
 						txt = " " + txt
 					case bk == 5:
@@ -217,13 +242,148 @@ func c20Blocks(d *document.Document) map[string]string {
 	return out
 }
 
+// c20Case runs the case; when it is rejected and the document contains runs that touch without a blank, the same case is run
+// again with a blank at those boundaries (same random stream otherwise): if that variant is accepted, the diagnosis is the
+// touching runs and the finding is keyed by them, otherwise the findings of the variant (which owe nothing to touching runs) are
+// reported.
 func c20Case(c *core.Ctx) *core.Result {
+	keep := -1
+	if (c.Case/2)%2 == 1 {
+		keep = 0 // half of the cases have no touching runs at all: no known limitation is in play there
+	}
+	res, classes := c20Run(c, keep)
+	if len(res.Findings) == 0 || len(classes) == 0 {
+		return res
+	}
+	alt, _ := c20Run(c, 0)
+	res.Count("diagnosis_reruns", 1)
+	if len(alt.Findings) > 0 {
+		res.Findings = alt.Findings
+		return res
+	}
+	// which touching boundary is enough on its own?
+	var out []core.Finding
+	seen := map[string]bool{}
+	for k := 1; k <= len(classes); k++ {
+		one, cl := c20Run(c, k)
+		res.Count("diagnosis_reruns", 1)
+		if len(cl) != 1 {
+			continue
+		}
+		for _, f := range one.Findings {
+			parts := strings.Split(f.Key, "/")
+			why := touchingReason(cl[0])
+			if why == "" {
+				why = "expressible:" + cl[0] // Markdown can express this boundary with one marker pair per run: not a known limitation
+			}
+			f.Key = parts[0] + "/touching-runs/" + why + "/" + parts[len(parts)-1]
+			if !seen[f.Key] {
+				seen[f.Key] = true
+				f.Summary = "two runs that touch without a blank (" + cl[0] + "): " + f.Summary
+				out = append(out, f)
+			}
+		}
+	}
+	if len(out) == 0 {
+		for _, f := range res.Findings {
+			parts := strings.Split(f.Key, "/")
+			f.Key = parts[0] + "/touching-runs/only-in-combination/" + parts[len(parts)-1]
+			if !seen[f.Key] {
+				seen[f.Key] = true
+				out = append(out, f)
+			}
+		}
+	}
+	res.Findings = out
+	return res
+}
+
+// touchingReason says why Markdown cannot express the boundary between two touching runs when each run gets its own marker pair
+// (cls = "<letters>|<letters>", see fmtLetters), or "" when it can. Between the last character of the first run and the first
+// character of the second sit the closing markers of the first run (code, then emphasis, then strike-through) and the opening
+// markers of the second (strike-through, emphasis, code). CommonMark's flanking rules decide per run of equal delimiter
+// characters: a closing run is usable only if it follows the word directly or is followed by more punctuation, an opening run only
+// if it precedes the word directly or follows punctuation; a run that has to close and open at once works only for '*' and
+// only with the same kind of neighbour (word or punctuation) on both sides.
+func touchingReason(cls string) string {
+	ab := strings.SplitN(cls, "|", 2)
+	if len(ab) != 2 {
+		return ""
+	}
+	kinds := func(f string, order []string) []string {
+		var out []string
+		for _, k := range order {
+			switch {
+			case k == "star" && f != "plain" && strings.ContainsAny(f, "bi"):
+				out = append(out, k)
+			case k == "tilde" && f != "plain" && strings.Contains(f, "s"):
+				out = append(out, k)
+			case k == "tick" && f != "plain" && strings.Contains(f, "c"):
+				out = append(out, k)
+			}
+		}
+		return out
+	}
+	closers := kinds(ab[0], []string{"tick", "star", "tilde"})
+	openers := kinds(ab[1], []string{"tilde", "star", "tick"})
+	type drun struct {
+		kind        string
+		close, open bool
+	}
+	var runs []drun
+	for i, k := range append(append([]string{}, closers...), openers...) {
+		isClose := i < len(closers)
+		if n := len(runs); n > 0 && runs[n-1].kind == k {
+			runs[n-1].close = runs[n-1].close || isClose
+			runs[n-1].open = runs[n-1].open || !isClose
+			continue
+		}
+		runs = append(runs, drun{kind: k, close: isClose, open: !isClose})
+	}
+	for i, dr := range runs {
+		first, last := i == 0, i == len(runs)-1
+		switch {
+		case dr.close && dr.open:
+			if dr.kind != "star" || first != last {
+				return "adjacent-delimiters-of-one-kind"
+			}
+		case dr.kind == "tick":
+		case dr.close && !first && last, dr.open && first && !last:
+			return "second-delimiter-kind-at-a-word-boundary"
+		}
+	}
+	return ""
+}
+
+// fmtLetters names the formatting of a run: b(old) i(talic) s(trike) c(ode), or plain.
+func fmtLetters(t xTok) string {
+	out := ""
+	if t.bold {
+		out += "b"
+	}
+	if t.italic {
+		out += "i"
+	}
+	if t.strike {
+		out += "s"
+	}
+	if t.code {
+		out += "c"
+	}
+	if out == "" {
+		return "plain"
+	}
+	return out
+}
+
+func c20Run(c *core.Ctx, keepTight int) (*core.Result, []string) {
 	res := &core.Result{}
 	r := caseRng(c)
 	document.VerifResetGlobals()
 	allowMeta := c.Case%2 == 1
 	bounds := map[string]int{}
-	d, toks, blocks := c20Doc(r, allowMeta, bounds)
+	var tightClasses []string
+	d, toks, blocks := c20Doc(r, allowMeta, keepTight, bounds, &tightClasses)
 	for k, v := range bounds {
 		res.Count("run-boundary:"+k, int64(v))
 	}
@@ -243,11 +403,11 @@ func c20Case(c *core.Ctx) *core.Result {
 	var err error
 	if cg := core.Catch(func() { md1, err = markdown.NewExporter(opts).ExportToString(d, opts) }); cg != nil {
 		res.Add("export/"+cg.Key(), "ExportToString panicked: "+cg.Msg, cg.Stack)
-		return res
+		return res, tightClasses
 	}
 	if err != nil {
 		res.Add("export/error", "export of a generated document failed: "+err.Error(), optNote)
-		return res
+		return res, tightClasses
 	}
 	res.Count("documents_exported", 1)
 	// 1. every run's text exactly once, in body order
@@ -337,11 +497,11 @@ func c20Case(c *core.Ctx) *core.Result {
 	copts.GenerateTOC = false
 	if cg := core.Catch(func() { d2, err = markdown.NewConverter(copts).ConvertString(md1, nil) }); cg != nil {
 		res.Add("roundtrip/convert/"+cg.Key(), "converting the exported Markdown panicked: "+cg.Msg, cg.Stack, md1)
-		return res
+		return res, tightClasses
 	}
 	if err != nil || d2 == nil {
 		res.Add("roundtrip/convert-error", fmt.Sprintf("the exported Markdown cannot be converted back: %v", err), md1)
-		return res
+		return res, tightClasses
 	}
 	back := c20Blocks(d2)
 	hasTable := false
@@ -356,7 +516,7 @@ func c20Case(c *core.Ctx) *core.Result {
 		res.Nontrivial = len(toks) >= 3
 		res.Sig = fmt.Sprintf("%v|%s", opts, md1)
 		res.Sample = map[string]interface{}{"case": c.Case, "blocks": blocks, "markdown": md1}
-		return res
+		return res, tightClasses
 	}
 	for _, t := range toks {
 		got, ok := back[t.tok]
@@ -373,7 +533,7 @@ func c20Case(c *core.Ctx) *core.Result {
 	var md2 string
 	if cg := core.Catch(func() { md2, err = markdown.NewExporter(opts).ExportToString(d2, opts) }); cg != nil {
 		res.Add("roundtrip/export/"+cg.Key(), "second export panicked: "+cg.Msg, cg.Stack)
-		return res
+		return res, tightClasses
 	}
 	if err == nil && md2 != md1 {
 		res.Add("roundtrip/"+cls+"/second-export-differs", "export(convert(export(D))) differs from export(D)", optNote, firstDiff(md1, md2))
@@ -382,7 +542,7 @@ func c20Case(c *core.Ctx) *core.Result {
 	res.Nontrivial = len(toks) >= 3
 	res.Sig = fmt.Sprintf("%v|%s", opts, md1)
 	res.Sample = map[string]interface{}{"case": c.Case, "blocks": blocks, "markdown": md1}
-	return res
+	return res, tightClasses
 }
 
 func hasCellBefore(toks []xTok, tok string) bool {
